@@ -51,6 +51,18 @@ func coResume(L *LState) int {
 		L.Push(LString(msg))
 		return 2
 	}
+	if th.Parent != nil {
+		// th has resumed another coroutine and is waiting for it (status "normal"):
+		// re-entering it would run its Go frames a second time
+		msg := "can not resume a non-suspended thread"
+		if th.wrapped {
+			L.RaiseError(msg)
+			return 0
+		}
+		L.Push(LFalse)
+		L.Push(LString(msg))
+		return 2
+	}
 	if th.Dead {
 		msg := "can not resume a dead thread"
 		if th.wrapped {
